@@ -686,7 +686,9 @@ class Cell(Numbered_MCNP_Object):
         def cleanup_last_line(ret):
             last_line = ret.splitlines()[-1]
             # check if adding to end of comment
-            if last_line.lower().startswith("c ") and last_line[-1] != "\n":
+            if is_comment(last_line) or "$" in last_line:
+                if ret.endswith("\n"):
+                    return ret + " " * BLANK_SPACE_CONTINUE
                 return ret + "\n" + " " * BLANK_SPACE_CONTINUE
             if not last_line[-1].isspace():
                 return ret + " "
